@@ -234,3 +234,69 @@ def c15_process_state(tier="quick", seed=0):
     a result depending on earlier contexts in the same process would have to get past)"""
     from contracts.C12_context import process_state
     return process_state("C15", tier, seed)
+
+
+# =======================================================================================================================
+# K1: slots are found BY NAME in the tables, whatever the order of the tables (for every table and every name)
+# =======================================================================================================================
+from pyvc.api import *      # noqa: E402
+
+
+def _slot_post(table, name, r, j):
+    """r is the FIRST position of name in table (j is any position), or None when the name is not in the table"""
+    if r is None:
+        return not (0 <= j and j < len(table)) or table[j] != name
+    return 0 <= r and r < len(table) and table[r] == name and (not (0 <= j and j < r) or table[j] != name)
+
+
+def c_get_local(comp: Obj("Compiler"), table: ValList, name: Str, j: IntRange(0, 2 ** 20)):
+    """Compiler._get_local(name): the slot of a local is the position of its NAME in the locals table (None if absent) --
+    no other input (no set order, no counter); the table is not touched"""
+    assume(elems_are(table, "str"))
+    comp.locals = table
+    snap = heap_snapshot()
+    o = outcome(REAL, comp, name)
+    check("never-raises", o[0] == "ret")
+    check("position-of-the-name", _slot_post(table, name, o[1], j))
+    check("reads-only", heap_unchanged(snap))
+
+
+def c_get_cell_var(comp: Obj("Compiler"), table: ValList, name: Str, j: IntRange(0, 2 ** 20)):
+    """Compiler._get_cell_var(name): likewise for the cell table"""
+    assume(elems_are(table, "str"))
+    comp._cell_vars = table
+    snap = heap_snapshot()
+    o = outcome(REAL, comp, name)
+    check("never-raises", o[0] == "ret")
+    check("position-of-the-name", _slot_post(table, name, o[1], j))
+    check("reads-only", heap_unchanged(snap))
+
+
+def c_add_local(comp: Obj("Compiler"), table: ValList, name: Str, j: IntRange(0, 2 ** 20)):
+    """Compiler._add_local(name): an existing local keeps its slot and the table stays as it is; a new one is appended
+    (so every earlier slot keeps its name) and gets the last slot"""
+    assume(elems_are(table, "str"))
+    comp.locals = table
+    n = len(table)
+    present = name in table
+    o = outcome(REAL, comp, name)
+    check("never-raises", o[0] == "ret")
+    after = comp.locals
+    if present:
+        check("existing.table-unchanged", same_ref(after, table) and len(after) == n)
+        check("existing.first-position", _slot_post(table, name, o[1], j))
+    else:
+        check("new.appended-last", len(after) == n + 1 and after[n] == name and o[1] == n)
+    check("earlier-slots-keep-their-names", not (0 <= j and j < n) or same_value(after[j], table[j]))
+
+
+def _native_comp(name):
+    def make():
+        from microjs.compiler import Compiler
+        return getattr(Compiler, name)
+    return make
+
+
+register(c_get_local, id="C15.Compiler._get_local", prop="C15", target=method("microjs.compiler", "Compiler._get_local"), native=_native_comp("_get_local"))
+register(c_get_cell_var, id="C15.Compiler._get_cell_var", prop="C15", target=method("microjs.compiler", "Compiler._get_cell_var"), native=_native_comp("_get_cell_var"))
+register(c_add_local, id="C15.Compiler._add_local", prop="C15", target=method("microjs.compiler", "Compiler._add_local"), native=_native_comp("_add_local"))
